@@ -264,6 +264,9 @@ func (v *Point) MultiScalarMult(scalars []*Scalar, points []*Point) *Point {
 	multiple := &projCached{}
 	tmp1 := &projP1xP1{}
 	tmp2 := &projP2{}
+	// Start from the identity, now that the tables and digits have been
+	// derived from the inputs (which are allowed to alias v).
+	v.Set(NewIdentityPoint())
 	// Lookup-and-add the appropriate multiple of each input point
 	for j := range tables {
 		tables[j].SelectInto(multiple, digits[j][63])
